@@ -61,6 +61,21 @@ def run(chk):
                 break
         if fail:
             break
+    # line structure is decided by runs of blanks and newlines (break / pre / BOL rules): small alphabets, deep
+    if not fail:
+        for alpha, depth2 in ((["\n", " ", "a"], 8 if chk.tier == "quick" else 10), (["\n", " ", "a", "|", "*", "="], 5 if chk.tier == "quick" else 6)):
+            for k in range(depth + 1, depth2 + 1):
+                for t in itertools.product(alpha, repeat=k):
+                    text = "".join(t)
+                    n += 1
+                    msg = tiling_violation(text)
+                    if msg:
+                        fail = {"detail": f"{text!r}: {msg}", "witness": {"text": text}, "class": msg.split(" ")[0]}
+                        break
+                if fail:
+                    break
+            if fail:
+                break
     rnd = random.Random(chk.seed)
     if not fail:
         for _ in range(20000 if chk.tier == "quick" else 200000):
@@ -76,6 +91,6 @@ def run(chk):
         types |= {t[0] for t in utoken.scan(s)}
     chk.level_override = "exploration"
     chk.bounded_result("scan_tiles_the_input", n, max(len(types), 2), True,
-                       f"all sequences of <= {depth} lexemes over a {len(LEX)}-lexeme alphabet (every scanner rule, BOL/non-BOL, NUL, U+EBAD, non-BMP) + seeded random sequences of 4..12 lexemes; distinct = token types seen on two probe strings",
+                       f"all sequences of <= {depth} lexemes over a {len(LEX)}-lexeme alphabet (every scanner rule, BOL/non-BOL, NUL, U+EBAD, non-BMP) + all sequences up to 8 (quick) / 10 over (newline, blank, a) and up to 5 / 6 over (newline, blank, a, |, *, =) + seeded random sequences of 4..12 lexemes; distinct = token types seen on two probe strings",
                        [fail] if fail else [], ["".join(t) for t in list(itertools.product(LEX[:6], repeat=2))[:3]])
     chk.assumptions += ["bounded stand-in only: the generated C++ scanner is outside the verifier's reach; nothing is proved"]
